@@ -72,7 +72,42 @@ func intField(mag uint64, neg bool) []byte {
 }
 
 // hostileAtom returns one correctly framed value with extreme fields.
+// varUInt10 encodes a 64-bit value as a 10-octet VarUInt (the longest form a 64-bit reader has to accept).
+func varUInt10(v uint64) []byte {
+	out := make([]byte, 10)
+	for i := 9; i >= 0; i-- {
+		out[i] = byte(v & 0x7f)
+		v >>= 7
+	}
+	out[9] |= 0x80
+	return out
+}
+
+// wrapAroundAtom: an annotation wrapper whose annot_length exceeds the wrapper, inside a list, followed by a value
+// whose 10-octet VarUInt length equals what "wrapper length - annot_length" gives when computed in unsigned 64-bit
+// arithmetic. Every single field is a legal encoding; only their relation is impossible.
+func wrapAroundAtom(r *prng.Rand) []byte {
+	w := uint64(r.Range(2, 4))        // declared wrapper length
+	a := w - 1 + uint64(r.Range(1, 4)) // annot_length: more than the wrapper has left
+	wrapper := []byte{0xe0 | byte(w), 0x80 | byte(a)}
+	for k := uint64(1); k < w; k++ {
+		wrapper = append(wrapper, 0x84) // annotation IDs inside the wrapper
+	}
+	list := append([]byte{0xb0 | byte(len(wrapper))}, wrapper...)
+	out := list
+	for k := w - 1; k < a; k++ {
+		out = append(out, 0x84) // the IDs the loop takes from beyond the list
+	}
+	remaining := w - 1 - a // wraps around
+	out = append(out, 0x8e)
+	out = append(out, varUInt10(remaining-11)...)
+	return append(out, 0x20, 0x20, 0x20)
+}
+
 func hostileAtom(r *prng.Rand) ([]byte, string) {
+	if r.Chance(1, 24) {
+		return wrapAroundAtom(r), "length-relation-wraps-around"
+	}
 	switch r.Intn(9) {
 	case 0: // decimal: extreme exponent, assorted coefficients
 		p := varIntBytes(pickMagnitude(r), r.Bool())
